@@ -140,3 +140,63 @@ def replay_send_ping(w, rec):
 
 
 REPLAYS['SocketTransportSink_mux._SendPingMessage'] = replay_send_ping
+
+
+def replay_send_loop(w, rec):
+  """A request whose deadline passed while it waited in the send queue is not written: the real send loop is run on
+  a fake socket over a queue holding [live request, request whose timeout event fired while queued, live request]."""
+  import gevent
+  from gevent.queue import Queue
+  from scales.constants import ChannelState
+  from scales.observable import Observable
+  from scales.sink import Deadline
+  from scales.mux.sink import Tag
+  from scales.thriftmux.sink import SocketTransportSink
+  bad = []
+  writes = []
+  class Sock(object):
+    def write(self, data):
+      writes.append(data)
+  class L(object):
+    def __getattr__(self, n):
+      return lambda *a, **k: None
+  class Meas(object):
+    def __enter__(self): return self
+    def __exit__(self, *a): return False
+  class VZ(object):
+    def __getattr__(self, n):
+      class M(object):
+        def __call__(self, *a, **k): return None
+        def Measure(self): return Meas()
+      return M()
+  s = SocketTransportSink.__new__(SocketTransportSink)
+  s._socket = Sock()
+  s._send_queue = Queue()
+  s._state = ChannelState.Open
+  s._log = L()
+  s._varz = VZ()
+  s._tag_map = {}
+  released = []
+  s._ReleaseTag = lambda tag: released.append(tag)
+  s._OnTimeout = lambda tag: None
+  shut = []
+  s._Shutdown = lambda *a, **k: (shut.append(a), setattr(s, '_state', ChannelState.Closed))
+  evs = [Observable(), Observable(), Observable()]
+  frames = [b'FRAME-A', b'FRAME-B-EXPIRED-IN-QUEUE', b'FRAME-C']
+  for i, (f, ev) in enumerate(zip(frames, evs)):
+    s._send_queue.put((f, {Deadline.EVENT_KEY: ev, Tag.KEY: 10 + i}))
+  evs[1].Set(True)          # B's caller has already been given TimeoutError; B is still queued
+  g = gevent.spawn(s._SendLoop)
+  for _ in range(20):
+    gevent.sleep(0)
+  g.kill(block=False)
+  if shut:
+    return False, 'send loop shut the transport down in the harness (%r): scenario not applicable' % (shut[0],)
+  if frames[1] in writes:
+    bad.append('a request whose deadline event fired while it waited in the send queue was written to the socket (%d bytes) after its caller had TimeoutError' % len(frames[1]))
+  if frames[0] not in writes or frames[2] not in writes:
+    bad.append('live requests were not written: %r' % (writes,))
+  return bool(bad), '\n'.join(bad) or 'the send loop drops a request that expired in the queue and writes the live ones'
+
+
+REPLAYS['MuxSocketTransportSink._SendLoop'] = replay_send_loop
